@@ -191,7 +191,7 @@ theorem step_no_bug (p : P) (h : Inv p) (op : Op) (hv : handlesValid p op = true
     simp only [step]
     exact p.allocSample_no_bug ⟨hT, hS⟩ t stack hv.1
   | markerType a b c => simp only [step]; split <;> simp
-  | marker t ty name strs => simp only [step]; exact (p.marker_TInv hT t ty name strs).2
+  | marker t ty name strs tm => simp only [step]; exact (p.marker_TInv hT t ty name strs tm).2
   | markerStack t m stack =>
     simp only [handlesValid, Bool.and_eq_true, decide_eq_true_eq] at hv
     simp only [step]
